@@ -364,7 +364,15 @@ func MatchAnchoredLiteral(input []byte, info *AnchoredLiteralInfo) bool {
 	//
 	// This correctly handles UTF-8 input where Cyrillic "файл" doesn't match [\w-]+.
 	charClassEnd := suffixStart
-	charClassStart := len(info.Prefix) + info.WildcardMin
+	charClassStart := len(info.Prefix)
+	if info.WildcardMin > 0 {
+		// .+ takes at least one whole character, not one byte of it
+		_, w := utf8.DecodeRune(input[charClassStart:charClassEnd])
+		if w < 1 {
+			w = 1
+		}
+		charClassStart += w
+	}
 	found := 0
 
 	for i := charClassEnd - 1; i >= charClassStart; i-- {
